@@ -509,6 +509,42 @@ def r7(R):
         R.violation((f.module.relpath, f.qualname, 'sweep root'),
                     'the garbage collection sweep no longer starts at the '
                     'root object')
+    # ... and at everything written AFTER the pack time (sibling agreement
+    # with the file storage's findReachableFromFuture): the work set also
+    # receives ids chosen by comparing an object's revisions with the pack
+    # time
+    rootvars = {t.id for x in roots for t in x.targets
+                if isinstance(t, ast.Name)}
+    stops = {t.id for x in walk_local(f.node) if isinstance(x, ast.Assign)
+             and any(isinstance(c, ast.Call) and dotted(c.func) and
+                     dotted(c.func)[-1] in ('TimeStamp', 'raw')
+                     for c in ast.walk(x.value))
+             for t in x.targets if isinstance(t, ast.Name)}
+    future = False
+    for t in walk_local(f.node):
+        if isinstance(t, ast.If) and any(
+                isinstance(c, ast.Compare) and any(
+                    isinstance(n, ast.Name) and n.id in stops
+                    for n in ast.walk(c)) for c in ast.walk(t.test)) and any(
+                isinstance(c, ast.Call) and isinstance(
+                    c.func, ast.Attribute) and c.func.attr in (
+                        'add', 'update', 'append') and isinstance(
+                            c.func.value, ast.Name) and
+                c.func.value.id in rootvars
+                for s_ in t.body for c in ast.walk(s_)):
+            future = True
+    if roots and not future:
+        R.violation(
+            (f.module.relpath, f.qualname, 'sweep roots: written after the '
+             'pack time'),
+            'the garbage collection sweep of the mapping storage starts '
+            'from the root alone: an object that nothing reachable refers '
+            'to but that was WRITTEN after the pack time (added explicitly, '
+            'or changed by an application that still holds it) is removed '
+            '-- and with it the transactions after the pack time that wrote '
+            'it disappear from iterator(); the file storage keeps '
+            'everything written after the pack time',
+            key='written after the pack time not kept by the sweep')
 
 
 # ------------------------------------------------------------------ C07.R8
